@@ -56,6 +56,22 @@ CLAIMED["C03"] = dict(
    text="Every entry point (loads, load on StringIO / open text file with arbitrary name and position / iterator of lines, open, open_with_detected_encoding, both class constructors with string= and file=, SSCChart.from_str, SMChart.from_str/from_msd/_parse) is symbolically executed and proved to return BUILD_fmt(msd_params(content handed over, not strict)) with fmt by the statement's rule, so all entry points agree; the tokenizer is called on exactly the content handed over with ignore_stray_text == not strict (flag threading and stream position as obligations); MSDParserError only when strict and the tokenizer reports stray text. The per-parameter rules are the loop invariants of the _parse methods.",
    note="Trusted: msdparser.parse_msd as the lazy tokenizer (T-MSD-3, incl. 'reads at least one chunk before yielding' and 'ignore_stray_text never raises'), ghost file system/codecs for open(), ordered-map theory, str.lower/upper/endswith, ''.join(lines) is the text, itertools.tee, VC generator, z3/cvc5. Which of ValueError/MSDParserError comes first when both apply is not specified.",
    technique="contract-based deductive verification: path-wise symbolic execution of all entry points against one postcondition; z3/cvc5", design_ref="6/C03")
+CLAIMED["C04"] = dict(
+   category="proof",
+   text="Composition over the proved contracts of C01-C03 (their units are re-run here): lemma LOADED-IN-DOMAIN shows that whatever the loaders produce is in the serializers' domain (upper-case keys, str-or-None values, SM chart fields equal to their own strip, re-joinable ATTACKS/DISPLAYBPM), the serializers never raise on that domain and emit the prescribed parameters, lemma RT-elements shows the loading rules give each emitted element back, and the serialization is a function of the simfile value, so a second save is byte-identical. Both lemmas are discharged by SMT; the chaining of the four steps is an argument in DESIGN.md.",
+   note=_SER_NOTE + " Proviso of the statement: every SSC chart contains note data.",
+   technique="contract-based deductive verification: SMT lemmas over the proved serializer/loader contracts", design_ref="6/C04")
+_FS_NOTE = "Trusted: the ghost file system contract T-FS (NativeOSFS and any PyFilesystem are assumed to satisfy it; this family cannot observe bytes on a disk), codecs T-CODEC, callee contracts for load (C03) and serialize/__str__ (C01/C02), contextlib.contextmanager semantics, VC generator, z3/cvc5."
+CLAIMED["C05"] = dict(
+   category="proof",
+   text="open_with_detected_encoding is proved for an arbitrary list of encodings by a loop invariant (every encoding tried so far fails to decode; the returned encoding is the first that decodes; exactly that decoded text is loaded; UnicodeDecodeError iff the list is non-empty and none decodes), open(encoding=e) as the one-element case; mutate is loop-free and every path is enumerated: for each of {input, other output} x {backup, none} x {SM, SSC} with an arbitrary edit of the yielded simfile, the output file is textwrite(enc, SER(simfile at exit)), the backup is textwrite(enc, SER(simfile at entry)), the input is untouched when an output name is given, no other path changes (frame over the ghost file system with an arbitrary other path), and a clashing backup name is refused with the file system unchanged.",
+   note=_FS_NOTE + " 'Parses to exactly the simfile' and the no-op second mutate follow from T-CODEC's inverse law with C01/C02/C04.",
+   technique="contract-based deductive verification over a ghost file system; loop invariant; z3/cvc5", design_ref="6/C05")
+CLAIMED["C06"] = dict(
+   category="proof",
+   text="Every exceptional path of mutate is an obligation; the fault points are enumerated by construction from the raises clauses of the calls it makes: the caller's block raising KeyboardInterrupt / SystemExit / an Exception subclass (propagates unchanged, file system identical) or CancelMutation (swallowed, file system identical); the edited simfile not serializable; not encodable in the detected encoding; open-for-writing failing; a write failing. For the first three save failures the input file still holds its original bytes; whenever the backup block has completed the backup is textwrite(enc, SER(simfile at entry)); nothing outside output/backup changes.",
+   note=_FS_NOTE,
+   technique="contract-based deductive verification: exhaustive exceptional-path enumeration of a loop-free function over a ghost file system; z3/cvc5", design_ref="6/C06")
 NA_REASON = "not yet brought under contract in this session (work in progress; see DESIGN.md section 6 for the plan)"
 
 NA_TABLE = {}
